@@ -1243,3 +1243,25 @@ def m_as_mut(ex, st, c):
     if v.variant == 'Some': return Some(inner)
     if v.variant == 'Ok': return Ok(inner)
     return Err(inner)
+
+
+@model(r'^<Vec<.*> as Extend<.*>>::extend$', r'^Vec(::<.*>)?::(append|extend_from_slice)$')
+def m_vec_extend(ex, st, c):
+    a = D(ex, st, c.args[0])
+    op = strip_generics(c.callee).rsplit('::', 1)[1]
+    src = D(ex, st, c.args[1])
+    if isinstance(a, SymStr):
+        if isinstance(src, SymStr): add = src
+        else:
+            it = lazy_of(ex, st, src)
+            return _consume(ex, st, it, lambda acc, x, i: acc + (x,), lambda acc: _WithStore(UNIT, (c.args[0], a.concat(_finish_collect(ex, st, 'Vec<u8>', acc)))), ())
+        ex.store(st, c.args[0], a.concat(add))
+        if op == 'append': ex.store(st, c.args[1], SymStr(()))
+        return UNIT
+    if not isinstance(a, Vec): raise Unsupported('extend of %r' % (a,))
+    if isinstance(src, Vec):
+        ex.store(st, c.args[0], Vec(list(a.items) + list(src.items)))
+        if op == 'append': ex.store(st, c.args[1], Vec([]))
+        return UNIT
+    it = lazy_of(ex, st, src)
+    return _consume(ex, st, it, lambda acc, x, i: acc + (x,), lambda acc: _WithStore(UNIT, (c.args[0], Vec(list(a.items) + list(acc)))), ())
